@@ -173,13 +173,64 @@ func decoderRules(c *core.Ctx) {
 				split = call
 			}
 		})
+		// splitVal: the value that holds the pieces in the group case — the splitGroup call itself, or the first result of a
+		// helper cut out of the group case that makes the call and returns its result on every path that returns a list
+		var splitVal ssa.Value
+		if split != nil {
+			splitVal = split
+		} else {
+			an.AllInstrs(um, func(in ssa.Instruction) {
+				call, ok := in.(*ssa.Call)
+				if !ok {
+					return
+				}
+				h := an.StaticCallee(&call.Call)
+				if h == nil || h == um || h.Pkg != um.Pkg || an.IsKnown(h) {
+					return
+				}
+				if owner, _ := an.LogicalOwner(h); owner != um {
+					return
+				}
+				var inner *ssa.Call
+				an.AllInstrs(h, func(i2 ssa.Instruction) {
+					if c2, ok := i2.(*ssa.Call); ok && an.StaticCallee(&c2.Call) == sg {
+						inner = c2
+					}
+				})
+				if inner == nil {
+					return
+				}
+				okRet := true
+				ps, _ := an.EnumPaths(h, 256)
+				for _, p := range ps {
+					if p.Return == nil || len(p.ResVals) == 0 {
+						continue
+					}
+					r := an.ResolveOnPath(p.ResVals[0], p)
+					if !an.IsNilConst(r) && r != ssa.Value(inner) {
+						okRet = false
+					}
+				}
+				if !okRet {
+					return
+				}
+				for _, ref := range *call.Referrers() {
+					if ex, ok := ref.(*ssa.Extract); ok && ex.Index == 0 {
+						split, splitVal = inner, ex
+					}
+				}
+				if h.Signature.Results().Len() == 1 {
+					split, splitVal = inner, call
+				}
+			})
+		}
 		// lf: the function that holds the loop; pieces: the split result as lf sees it; entry: the instruction of um that leads into the loop
 		lf := um
 		var pieces ssa.Value
 		var entry ssa.Instruction
 		var group ssa.Value // the group as lf sees it
 		if split != nil {
-			pieces = split
+			pieces = splitVal
 			an.AllInstrs(um, func(in ssa.Instruction) {
 				call, ok := in.(*ssa.Call)
 				if !ok {
@@ -190,7 +241,7 @@ func decoderRules(c *core.Ctx) {
 					return
 				}
 				for i, a := range call.Call.Args {
-					if a == ssa.Value(split) && i < len(h.Params) {
+					if a == splitVal && i < len(h.Params) {
 						lf, pieces, entry = h, h.Params[i], call
 						for j, b := range call.Call.Args {
 							if an.TypeIs(b.Type(), "fix", "Group") && j < len(h.Params) {
@@ -202,6 +253,7 @@ func decoderRules(c *core.Ctx) {
 			})
 		}
 		var asT, addE, rec *ssa.Call
+		recWhole := false // rec hands the whole fresh entry to an item-loop helper
 		if pieces != nil {
 			an.AllInstrs(lf, func(in ssa.Instruction) {
 				call, ok := in.(*ssa.Call)
@@ -217,6 +269,11 @@ func decoderRules(c *core.Ctx) {
 					if ia, ok := unload(call.Call.Args[1]).(*ssa.IndexAddr); ok && ia.X == pieces {
 						rec = call
 					}
+				case isItemLoopHelper(an.StaticCallee(&call.Call), um) && len(call.Call.Args) >= 3:
+					// a helper that parses the data it is given into each item of the list it is given, in order
+					if ia, ok := unload(call.Call.Args[1]).(*ssa.IndexAddr); ok && ia.X == pieces {
+						rec, recWhole = call, true
+					}
 				}
 			})
 		}
@@ -227,7 +284,7 @@ func decoderRules(c *core.Ctx) {
 			if f == nil || pieces == nil {
 				continue
 			}
-			want := ssa.Value(split)
+			want := splitVal
 			if f == lf && lf != um {
 				want = pieces
 			}
@@ -283,7 +340,11 @@ func decoderRules(c *core.Ctx) {
 					bad = append(bad, "the entry is added inside the item loop (once per item instead of once per entry)")
 				}
 				// template items filled: range over the fresh entry, item t77[j]
-				if ia2, ok := unload(rec.Call.Args[2]).(*ssa.IndexAddr); !ok || ia2.X != ssa.Value(asT) || rangeIndexPhi(ia2.Index) == nil {
+				if recWhole {
+					if rec.Call.Args[2] != ssa.Value(asT) {
+						bad = append(bad, "the items filled are not the items of the fresh entry, in order")
+					}
+				} else if ia2, ok := unload(rec.Call.Args[2]).(*ssa.IndexAddr); !ok || ia2.X != ssa.Value(asT) || rangeIndexPhi(ia2.Index) == nil {
 					bad = append(bad, "the items filled are not the items of the fresh entry, in order")
 				}
 				// loop bound = parsed count, and count == number of pieces on every path into the loop
@@ -312,7 +373,7 @@ func decoderRules(c *core.Ctx) {
 					b, ok := call.Call.Value.(*ssa.Builtin)
 					return ok && b.Name() == "len" && call.Call.Args[0] == of
 				}
-				isLenOfSplit := func(v ssa.Value) bool { return isLenOf(v, split) }
+				isLenOfSplit := func(v ssa.Value) bool { return isLenOf(v, splitVal) }
 				boundIsLenOfPieces := isLenOf(boundVal, pieces)
 				// the helper may be handed the count: the bound is then what the caller passes for that parameter, and the
 				// caller must have compared it with the number of pieces
@@ -832,6 +893,20 @@ func checkItemLoops(c *core.Ctx, rule string) {
 			}
 			if okBound && okExit && okErr {
 				ob.Ok("range over the whole slice; leaves early only when an item fails to parse")
+				// one loop in a helper shared by several callers stands for as many loops: its further call sites
+				if !an.IsKnown(fn) && fn.Parent() == nil {
+					sites := 0
+					for _, caller := range pkgFuncs(fn.Pkg) {
+						an.AllInstrs(caller, func(in ssa.Instruction) {
+							if cc := an.CallOf(in); cc != nil && an.StaticCallee(cc) == fn {
+								sites++
+								if sites > 1 {
+									c.Ob(rule, an.NameOf(caller), "items parsed through "+spec.name, in.Pos()).Ok("through the item loop of %s (checked there)", spec.name)
+								}
+							}
+						})
+					}
+				}
 			} else if okBound && okExit {
 				ob.Fail("an item's parse error is not returned: the function returns nil although %s failed (dropped or shadowed error) — a damaged field passes as parsed", an.Render(call))
 			} else {
@@ -839,4 +914,27 @@ func checkItemLoops(c *core.Ctx, rule string) {
 			}
 		}
 	}
+}
+
+// isItemLoopHelper: h(recv, data, items, …) is a helper of the decoder, not in the pinned vocabulary, that calls the decoder's
+// unmarshal on its own data parameter for the elements of its own items parameter, taken in ascending order by a range loop
+// (that the loop visits every item and leaves early only with the error is rule R7's business, for every such loop).
+func isItemLoopHelper(h, um *ssa.Function) bool {
+	if h == nil || um == nil || h == um || h.Pkg != um.Pkg || an.IsKnown(h) || len(h.Params) < 3 {
+		return false
+	}
+	ok := false
+	an.AllInstrs(h, func(in ssa.Instruction) {
+		call, isCall := in.(*ssa.Call)
+		if !isCall || an.StaticCallee(&call.Call) != um || len(call.Call.Args) < 3 {
+			return
+		}
+		if call.Call.Args[1] != ssa.Value(h.Params[1]) {
+			return
+		}
+		if ia, isIA := unload(call.Call.Args[2]).(*ssa.IndexAddr); isIA && ia.X == ssa.Value(h.Params[2]) && rangeIndexPhi(ia.Index) != nil && inLoop(call.Block()) {
+			ok = true
+		}
+	})
+	return ok
 }
